@@ -29,6 +29,8 @@ import (
 	"verif/harness/fx"
 )
 
+var reopenEvery int
+
 func progOf(v interface{}) ([]step, error) {
 	var prog []step
 	b, _ := json.Marshal(v)
@@ -83,6 +85,7 @@ func (w *world) runCase(tw *fx.TraceWriter, k int, beh []fx.Ev) error {
 			ev["res"] = "ok"
 			w.stats["interleaves"]++
 		case "submit":
+			c.reopen = reopenEvery > 0 && k%reopenEvery == 0
 			res, extra, err := c.submit(op)
 			if err != nil {
 				return err
@@ -113,6 +116,7 @@ func replay(args []string) error {
 	out := fs.String("out", "trace.ndjson", "ndjson trace to write")
 	base := fs.Int("base", 0, "index of the first behaviour")
 	perNode := fs.Int("per-node", 400, "cases run on one node before a fresh one is created")
+	fs.IntVar(&reopenEvery, "reopen-every", 3, "after the submission of every n-th case the keys are also read on a node reopened on a copy of the data (0 = never)")
 	fs.Parse(args)
 	behs, err := fx.LoadBehaviours(*in)
 	if err != nil {
